@@ -302,6 +302,9 @@ def _f1(seedoff):
 
 
 REGISTRY["C04"]["teq"].append(_f1(4))
+# refused writes (memory limit) on persistent stores, next to records still in the write-behind buffer
+REGISTRY["C01"]["teq"].append(seq({"only": "limited", "n": 10, "ops": 80, "seedoff": 101}, {"only": "limited", "seedoff": 101}))
+REGISTRY["C13"]["teq"].append(seq({"only": "limited", "n": 10, "ops": 80, "seedoff": 113}, {"only": "limited", "seedoff": 113}))
 REGISTRY["C11"]["teq"].append(_f1(11))
 
 
